@@ -103,13 +103,16 @@ def gen_update(fn):
             closers.append("end")
             env[name] = name
             continue
-        # parent = self._level_to_section[parent_level]
-        if isinstance(s, ast.Assign) and len(s.targets) == 1 and isinstance(s.targets[0], ast.Name) \
+        # parent = self._level_to_section[parent_level]      (several targets allowed: a = b = d[k])
+        if isinstance(s, ast.Assign) and all(isinstance(t, ast.Name) for t in s.targets) \
                 and isinstance(s.value, ast.Subscript) and u(s.value.value) == "self._level_to_section":
-            name = s.targets[0].id
-            out.append(f"match dict_get (lvl s) {iexpr(s.value.slice, env)} with Raise __e => Raise __e | Ok {name} =>")
+            names = [t.id for t in s.targets]
+            out.append(f"match dict_get (lvl s) {iexpr(s.value.slice, env)} with Raise __e => Raise __e | Ok {names[0]} =>")
+            for n in names[1:]:
+                out.append(f"let {n} := {names[0]} in")
             closers.append("end")
-            nodes_known[name] = name
+            for n in names:
+                nodes_known[n] = n
             continue
         # if TEST: (message text ...) self.create_warning(msg, MystWarnings.MD_HEADING_NON_CONSECUTIVE, line=..., append_to=self.current_node)
         if isinstance(s, ast.If) and not s.orelse:
